@@ -217,8 +217,9 @@ def cache_type(method: Method) -> Method:
     @wraps(method)
     def wrapper(self: "SchemaBuilder", *args, **kwargs):
         factory = method(self, *args, **kwargs)
-        # A type visited as a flattened field has its own resolvers and cannot be shared
-        flattened = getattr(self, "get_flattened", None) is not None
+        # A type visited as a flattened field has its own resolvers (bound to the
+        # accessor of this very flattening) and cannot be shared with another context
+        flattened = getattr(self, "get_flattened", None)
 
         @wraps(factory.factory)
         def name_cache(
@@ -267,7 +268,7 @@ class SchemaBuilder(
         self.id_type = id_type
         self.is_id = is_id or (lambda t: False)
         self._cache_by_name: Dict[
-            Tuple[str, Callable, Optional[str], bool],
+            Tuple[str, Callable, Optional[str], Optional[Callable]],
             Tuple[graphql.GraphQLNonNull, Tuple[tuple, dict]],
         ] = {}
 
